@@ -589,23 +589,22 @@ Proof.
 Qed.
 
 Lemma check_cols_ok : forall cols seen, check_cols cols seen = Ok tt ->
-  forall c, In c cols -> supported (c_type c) = true \/ c_type c = TBad "Nothing".
+  forall c, In c cols -> supported (c_type c) = true.
 Proof.
   induction cols as [|x cols IH]; intros seen H c Hc; [contradiction|]. cbn in H.
-  destruct (supported (c_type x) || vtype_eqb (c_type x) (TBad "Nothing")) eqn:E; cbn in H; [|discriminate].
+  destruct (supported (c_type x)) eqn:E; cbn in H; [|discriminate].
   destruct (existsb _ seen); [discriminate|].
-  destruct Hc as [<-|Hc]; [|eapply IH; eauto].
-  apply orb_true_iff in E. destruct E as [E|E]; [now left|right; now apply vtype_eqb_eq].
+  destruct Hc as [<-|Hc]; [exact E|eapply IH; eauto].
 Qed.
 
 Lemma plan_create_schema : forall cols, plan_create cols = Ok tt -> schema_ok cols.
 Proof.
   intros cols H c Hc. unfold plan_create in H.
-  destruct (check_cols cols []); cbn in H; try discriminate.
-  destruct (forallb (fun c0 => supported (c_type c0)) cols) eqn:E; cbn in H; [|discriminate].
-  rewrite forallb_forall in E. unfold col_type.
+  destruct (is_nil cols); [discriminate|].
+  destruct (check_cols cols []) as [[]| |] eqn:E; cbn in H; try discriminate.
+  unfold col_type.
   destruct (nth_error cols c) as [x|] eqn:En; [|apply nth_error_None in En; lia].
-  apply E. eapply nth_error_In; eauto.
+  eapply check_cols_ok; eauto. eapply nth_error_In; eauto.
 Qed.
 
 (** every step keeps the frame well formed *)
